@@ -1,9 +1,9 @@
-\* dropped raw HTML anywhere in lists and quotes (containers left with nothing to write), <= 4 nodes
+\* dropped raw HTML anywhere in lists and quotes (containers left with nothing to write), <= 5 nodes
 SPECIFICATION Spec
 CONSTANTS
   LeafKinds <- HtmlLeaves
   ContKinds <- QuoteConts
-  MaxNodes = 4
+  MaxNodes = 5
   MaxDepth = 2
 INVARIANT Emit
 CHECK_DEADLOCK FALSE
